@@ -2275,6 +2275,261 @@ fn run(v: &Value) -> Result<String, String> {
             if reg.aliases_for(repe::PeerId(2)) != vec!["other".to_string()] || reg.get_by("other").map(|p| p.peer_id().0) != Some(2) { return Err("an unrelated peer's alias was disturbed".into()); }
             Ok(format!("alias/remove race resolved as a sequential order (alias returned {attached})"))
         }
+        "ws_lifecycle_sweep" => {
+            // Bounded stand-in for C15 (one scenario per exit cause; schedule samples, not a proof): for every accepted
+            // connection the disconnect callbacks run exactly once, never for a failed handshake; with a registry attached
+            // the peer and its alias are present from connect until then and absent afterwards; a notification queued by a
+            // connect callback reaches the wire before any response; a parked off-reader handler observes cancellation.
+            use repe::tokio_tungstenite::tungstenite::Message as WsMessage;
+            use futures_util::{SinkExt, StreamExt};
+            use repe::{Router, WebSocketServer, PeerRegistry, PeerId, ShutdownToken};
+            use serde_json::json;
+            use std::sync::{Arc, Mutex};
+            use std::sync::atomic::{AtomicUsize, Ordering};
+            use std::time::Duration;
+            let rt = tokio::runtime::Builder::new_multi_thread().worker_threads(4).enable_all().build().unwrap();
+            let causes = ["inline_ctx_handler_during_cancel", "parked_offreader_then_inline_panic", "clean_close", "abrupt_drop", "text_frame", "malformed_binary", "inline_handler_panic", "connect_callback_panic", "embedder_cancel", "parked_offreader_then_drop", "failed_handshake"];
+            let mut done = 0usize;
+            let outcome: Result<(), String> = (|| {
+                for cause in causes {
+                    let connects: Arc<Mutex<Vec<u64>>> = Arc::new(Mutex::new(Vec::new()));
+                    let disconnects: Arc<Mutex<Vec<(u64, bool, bool)>>> = Arc::new(Mutex::new(Vec::new()));   // (id, still in registry, alias still resolves)
+                    let observed_cancel = Arc::new(AtomicUsize::new(0));
+                    let parked = Arc::new(AtomicUsize::new(0));
+                    let registry = PeerRegistry::new();
+                    let (c2, d2, r2, r3) = (connects.clone(), disconnects.clone(), registry.clone(), registry.clone());
+                    let (oc, pk) = (observed_cancel.clone(), parked.clone());
+                    let panic_in_connect = cause == "connect_callback_panic";
+                    let router = Router::new()
+                        .with_json("/ping", |_| Ok(json!("pong")))
+                        .with_json("/boom", |_| -> Result<serde_json::Value, (repe::ErrorCode, String)> { panic!("inline handler panics (scripted)") })
+                        .with_json_ctx("/spin", { let (oc2, pk2) = (observed_cancel.clone(), parked.clone()); move |ctx, _| {
+                            // an INLINE context-aware handler that is still running when the connection is cancelled
+                            pk2.fetch_add(1, Ordering::SeqCst);
+                            let t0 = std::time::Instant::now();
+                            while !ctx.is_cancelled() && t0.elapsed() < Duration::from_secs(3) { std::thread::sleep(Duration::from_millis(5)); }
+                            if ctx.is_cancelled() { oc2.fetch_add(1, Ordering::SeqCst); }
+                            Ok(json!("left"))
+                        } })
+                        .with_json_ctx_blocking("/park", move |ctx, _| {
+                            pk.fetch_add(1, Ordering::SeqCst);
+                            let t0 = std::time::Instant::now();
+                            while !ctx.is_cancelled() && t0.elapsed() < Duration::from_secs(8) { std::thread::sleep(Duration::from_millis(5)); }
+                            if ctx.is_cancelled() { oc.fetch_add(1, Ordering::SeqCst); }
+                            Ok(json!("left"))
+                        });
+                    let server = WebSocketServer::new(router)
+                        .with_peer_registry(registry.clone())
+                        .on_peer_connect(move |peer| {
+                            let id = peer.peer_id().0;
+                            // the registry's own connect hook ran before this one: the peer is addressable from here on
+                            let present = r2.get(PeerId(id)).is_some() && r2.alias(PeerId(id), format!("session-{id}"));
+                            c2.lock().unwrap().push(if present { id } else { u64::MAX });
+                            let _ = peer.send_notify("/hello", repe::NotifyBody::Utf8("hi".into()));
+                            if panic_in_connect { panic!("connect callback panics (scripted)"); }
+                        })
+                        .on_peer_disconnect(move |id| {
+                            d2.lock().unwrap().push((id.0, r3.get(id).is_some(), r3.get_by(format!("session-{}", id.0).as_str()).is_some()));
+                        });
+                    let shared = server.into_shared();
+                    let token = ShutdownToken::new();
+                    let res: Result<(), String> = rt.block_on(async {
+                        let listener = tokio::net::TcpListener::bind(("127.0.0.1", 0)).await.map_err(|e| e.to_string())?;
+                        let addr = listener.local_addr().unwrap();
+                        let (sh, tk) = (shared.clone(), token.clone());
+                        let server_task = tokio::spawn(async move {
+                            loop {
+                                let Ok((stream, _)) = listener.accept().await else { break };
+                                let (sh, tk) = (sh.clone(), tk.clone());
+                                tokio::spawn(async move { if let Ok(ws) = WebSocketServer::accept(stream, "/repe").await { let _ = sh.serve_connection_with_cancel(ws, &tk).await; } });
+                            }
+                        });
+                        let path = if cause == "failed_handshake" { "/wrong" } else { "/repe" };
+                        let conn = repe::tokio_tungstenite::connect_async(format!("ws://{addr}{path}")).await;
+                        if cause == "failed_handshake" {
+                            if conn.is_ok() { return Err("a handshake on the wrong path was accepted".into()); }
+                            tokio::time::sleep(Duration::from_millis(300)).await;
+                            if !connects.lock().unwrap().is_empty() || !disconnects.lock().unwrap().is_empty() { return Err(format!("failed handshake: connect hooks ran {} times and disconnect hooks {} times; both must be 0", connects.lock().unwrap().len(), disconnects.lock().unwrap().len())); }
+                            server_task.abort();
+                            return Ok(());
+                        }
+                        let (mut ws, _) = conn.map_err(|e| format!("{cause}: connect failed: {e}"))?;
+                        let req = |id: u64, p: &str| WsMessage::Binary(repe::Message::builder().id(id).query_str(p).query_format(repe::QueryFormat::JsonPointer).body_json(&json!({})).unwrap().build().to_vec().into());
+                        if cause != "connect_callback_panic" {
+                            // the hello queued by the connect callback is on the wire before the response to the first request
+                            ws.send(req(1, "/ping")).await.map_err(|e| e.to_string())?;
+                            let mut kinds = Vec::new();
+                            for _ in 0..2 {
+                                match tokio::time::timeout(Duration::from_secs(5), ws.next()).await { Ok(Some(Ok(WsMessage::Binary(b)))) => { let m = repe::Message::from_slice_exact(&b).map_err(|e| e.to_string())?; kinds.push(m.header.notify != 0); } other => return Err(format!("{cause}: expected the hello notification and the /ping response, got {other:?}")) }
+                            }
+                            if kinds != vec![true, false] { return Err(format!("{cause}: the notification queued by the connect callback did not reach the wire before the first response (notify flags in arrival order: {kinds:?})")); }
+                            let ids = connects.lock().unwrap().clone();
+                            if ids.len() != 1 || ids[0] == u64::MAX { return Err(format!("{cause}: connect callbacks ran {} time(s); peer present in the registry at connect: {}", ids.len(), ids.first().map(|i| *i != u64::MAX).unwrap_or(false))); }
+                            if registry.get(PeerId(ids[0])).is_none() || registry.get_by(format!("session-{}", ids[0]).as_str()).is_none() { return Err(format!("{cause}: the peer or its alias is not in the registry while the connection is open")); }
+                        }
+                        match cause {
+                            "clean_close" => { let _ = ws.close(None).await; }
+                            "abrupt_drop" => { drop(ws); }
+                            "text_frame" => { let _ = ws.send(WsMessage::Text("not binary".into())).await; let _ = ws.flush().await; tokio::time::sleep(Duration::from_millis(50)).await; drop(ws); }
+                            "malformed_binary" => { let _ = ws.send(WsMessage::Binary(vec![1u8; 10].into())).await; let _ = ws.flush().await; tokio::time::sleep(Duration::from_millis(50)).await; drop(ws); }
+                            "inline_handler_panic" => { let _ = ws.send(req(2, "/boom")).await; let _ = ws.flush().await; tokio::time::sleep(Duration::from_millis(100)).await; drop(ws); }
+                            "connect_callback_panic" => { tokio::time::sleep(Duration::from_millis(100)).await; drop(ws); }
+                            "embedder_cancel" => { token.cancel(); tokio::time::sleep(Duration::from_millis(50)).await; drop(ws); }
+                            "inline_ctx_handler_during_cancel" => {
+                                let _ = ws.send(req(4, "/spin")).await; let _ = ws.flush().await;
+                                let t0 = std::time::Instant::now();
+                                while parked.load(Ordering::SeqCst) == 0 { if t0.elapsed() > Duration::from_secs(5) { return Err("the inline handler never started".into()); } tokio::time::sleep(Duration::from_millis(5)).await; }
+                                token.cancel();
+                                let t1 = std::time::Instant::now();
+                                while observed_cancel.load(Ordering::SeqCst) == 0 { if t1.elapsed() > Duration::from_secs(5) { return Err("inline_ctx_handler_during_cancel: an inline handler still running when the embedder cancelled the connection did not observe cancellation".into()); } tokio::time::sleep(Duration::from_millis(10)).await; }
+                                drop(ws);
+                            }
+                            "parked_offreader_then_inline_panic" => {
+                                let _ = ws.send(req(3, "/park")).await; let _ = ws.flush().await;
+                                let t0 = std::time::Instant::now();
+                                while parked.load(Ordering::SeqCst) == 0 { if t0.elapsed() > Duration::from_secs(5) { return Err("the off-reader handler never started".into()); } tokio::time::sleep(Duration::from_millis(5)).await; }
+                                let _ = ws.send(req(2, "/boom")).await; let _ = ws.flush().await;
+                                let t1 = std::time::Instant::now();
+                                while observed_cancel.load(Ordering::SeqCst) == 0 { if t1.elapsed() > Duration::from_secs(5) { return Err("parked_offreader_then_inline_panic: the connection ended by a handler panic, yet the off-reader handler still running on it never observed cancellation".into()); } tokio::time::sleep(Duration::from_millis(10)).await; }
+                                drop(ws);
+                            }
+                            "parked_offreader_then_drop" => {
+                                let _ = ws.send(req(3, "/park")).await; let _ = ws.flush().await;
+                                let t0 = std::time::Instant::now();
+                                while parked.load(Ordering::SeqCst) == 0 { if t0.elapsed() > Duration::from_secs(5) { return Err("the off-reader handler never started".into()); } tokio::time::sleep(Duration::from_millis(5)).await; }
+                                drop(ws);
+                            }
+                            _ => unreachable!(),
+                        }
+                        // exactly one disconnect, with the peer already purged when the embedder's hook (registered after the registry's) runs
+                        let t0 = std::time::Instant::now();
+                        loop {
+                            let n = disconnects.lock().unwrap().len();
+                            if n >= 1 { break; }
+                            if t0.elapsed() > Duration::from_secs(6) { return Err(format!("{cause}: the disconnect callbacks never ran for an accepted connection (connect callbacks ran {} time(s))", connects.lock().unwrap().len())); }
+                            tokio::time::sleep(Duration::from_millis(10)).await;
+                        }
+                        tokio::time::sleep(Duration::from_millis(250)).await;
+                        let ds = disconnects.lock().unwrap().clone();
+                        let cs = connects.lock().unwrap().clone();
+                        if ds.len() != 1 { return Err(format!("{cause}: the disconnect callbacks ran {} times for one connection", ds.len())); }
+                        if cs.len() != 1 || cs[0] != ds[0].0 { return Err(format!("{cause}: connect saw peers {cs:?}, disconnect saw {:?}", ds.iter().map(|d| d.0).collect::<Vec<_>>())); }
+                        if ds[0].1 || ds[0].2 || registry.get(PeerId(ds[0].0)).is_some() || registry.get_by(format!("session-{}", ds[0].0).as_str()).is_some() || !registry.is_empty() {
+                            return Err(format!("{cause}: after the disconnect callbacks the peer or its alias is still in the registry (in hook: peer {}, alias {}; now: {} peers)", ds[0].1, ds[0].2, registry.len()));
+                        }
+                        if cause == "parked_offreader_then_drop" {
+                            let t1 = std::time::Instant::now();
+                            while observed_cancel.load(Ordering::SeqCst) == 0 { if t1.elapsed() > Duration::from_secs(5) { return Err("a handler still running when the connection ended did not observe cancellation".into()); } tokio::time::sleep(Duration::from_millis(10)).await; }
+                        }
+                        server_task.abort();
+                        Ok(())
+                    });
+                    res?;
+                    done += 1;
+                }
+                Ok(())
+            })();
+            // the built-in accept loop with graceful drain: three open connections, shutdown, every one gets its disconnect callbacks once
+            let outcome = outcome.and_then(|_| {
+                let connects = Arc::new(AtomicUsize::new(0));
+                let disconnects: Arc<Mutex<Vec<u64>>> = Arc::new(Mutex::new(Vec::new()));
+                let registry = PeerRegistry::new();
+                let (c2, d2) = (connects.clone(), disconnects.clone());
+                let server = WebSocketServer::new(Router::new().with_json("/ping", |_| Ok(json!("pong"))))
+                    .with_peer_registry(registry.clone())
+                    .on_peer_connect(move |_p| { c2.fetch_add(1, Ordering::SeqCst); })
+                    .on_peer_disconnect(move |id| { d2.lock().unwrap().push(id.0); });
+                rt.block_on(async {
+                    let listener = tokio::net::TcpListener::bind(("127.0.0.1", 0)).await.map_err(|e| e.to_string())?;
+                    let addr = listener.local_addr().unwrap();
+                    let (stop_tx, stop_rx) = tokio::sync::oneshot::channel::<()>();
+                    let serving = tokio::spawn(async move { server.serve_listener_with_graceful_drain(listener, "/repe", async move { let _ = stop_rx.await; }, Duration::from_millis(500)).await });
+                    let mut clients = Vec::new();
+                    for _ in 0..3 { let (ws, _) = repe::tokio_tungstenite::connect_async(format!("ws://{addr}/repe")).await.map_err(|e| e.to_string())?; clients.push(ws); }
+                    let t0 = std::time::Instant::now();
+                    while connects.load(Ordering::SeqCst) < 3 { if t0.elapsed() > Duration::from_secs(5) { return Err(format!("graceful drain: only {} of 3 connections ran their connect callbacks", connects.load(Ordering::SeqCst))); } tokio::time::sleep(Duration::from_millis(10)).await; }
+                    if registry.len() != 3 { return Err(format!("graceful drain: {} peers in the registry with 3 connections open", registry.len())); }
+                    let _ = stop_tx.send(());
+                    match tokio::time::timeout(Duration::from_secs(6), serving).await { Ok(_) => {}, Err(_) => return Err("graceful drain: the accept loop did not return within 6 s of shutdown (drain deadline 0.5 s)".into()) }
+                    tokio::time::sleep(Duration::from_millis(200)).await;
+                    let mut ds = disconnects.lock().unwrap().clone();
+                    ds.sort();
+                    let mut uniq = ds.clone(); uniq.dedup();
+                    if ds.len() != 3 || uniq.len() != 3 { return Err(format!("graceful drain: disconnect callbacks ran for peers {ds:?}; expected exactly once for each of the 3 connections")); }
+                    if !registry.is_empty() { return Err(format!("graceful drain: {} peers left in the registry after shutdown", registry.len())); }
+                    drop(clients);
+                    Ok(())
+                })
+            });
+            if outcome.is_ok() { done += 1; }
+            // drain deadline with a straggler: when the accept loop returns, the aborted connection's disconnect callbacks have already run
+            let outcome = outcome.and_then(|_| {
+                let started = Arc::new(AtomicUsize::new(0));
+                let st2 = started.clone();
+                let disconnects = Arc::new(AtomicUsize::new(0));
+                let d2 = disconnects.clone();
+                let registry = PeerRegistry::new();
+                let server = WebSocketServer::new(Router::new().with_json("/slow", move |_| { st2.fetch_add(1, Ordering::SeqCst); std::thread::sleep(Duration::from_millis(1200)); Ok(json!("late")) }))
+                    .with_peer_registry(registry.clone())
+                    .on_peer_disconnect(move |_| { d2.fetch_add(1, Ordering::SeqCst); });
+                rt.block_on(async {
+                    let listener = tokio::net::TcpListener::bind(("127.0.0.1", 0)).await.map_err(|e| e.to_string())?;
+                    let addr = listener.local_addr().unwrap();
+                    let (stop_tx, stop_rx) = tokio::sync::oneshot::channel::<()>();
+                    let serving = tokio::spawn(async move { server.serve_listener_with_graceful_drain(listener, "/repe", async move { let _ = stop_rx.await; }, Duration::from_millis(100)).await });
+                    let (mut ws, _) = repe::tokio_tungstenite::connect_async(format!("ws://{addr}/repe")).await.map_err(|e| e.to_string())?;
+                    let m = repe::Message::builder().id(1).query_str("/slow").query_format(repe::QueryFormat::JsonPointer).body_json(&json!({})).unwrap().build();
+                    ws.send(WsMessage::Binary(m.to_vec().into())).await.map_err(|e| e.to_string())?;
+                    let t0 = std::time::Instant::now();
+                    while started.load(Ordering::SeqCst) == 0 { if t0.elapsed() > Duration::from_secs(5) { return Err("drain straggler: the slow handler never started".to_string()); } tokio::time::sleep(Duration::from_millis(5)).await; }
+                    let _ = stop_tx.send(());
+                    match tokio::time::timeout(Duration::from_secs(8), serving).await { Ok(_) => {}, Err(_) => return Err("drain straggler: the accept loop did not return within 8 s".into()) }
+                    let n = disconnects.load(Ordering::SeqCst);
+                    if n != 1 || !registry.is_empty() { return Err(format!("drain straggler: the graceful-drain call returned after aborting a straggler, but its disconnect callbacks had run {n} time(s) and {} peer(s) were still registered at that moment", registry.len())); }
+                    drop(ws);
+                    Ok(())
+                })
+            });
+            if outcome.is_ok() { done += 1; }
+            // embedder cancellation while the reader is parked handing a response to a full outbound queue (adopted upgraded stream)
+            let outcome = outcome.and_then(|_| {
+                use repe::tokio_tungstenite::tungstenite::protocol::Role;
+                let served = Arc::new(AtomicUsize::new(0));
+                let s2 = served.clone();
+                let router = Router::new().with_json("/blob", move |_| { s2.fetch_add(1, Ordering::SeqCst); Ok(json!({"data": "x".repeat(64 * 1024)})) });
+                let registry = PeerRegistry::new();
+                let disconnects = Arc::new(AtomicUsize::new(0));
+                let d2 = disconnects.clone();
+                let shared = WebSocketServer::new(router).with_outbound_capacity(1).with_peer_registry(registry.clone()).on_peer_disconnect(move |_| { d2.fetch_add(1, Ordering::SeqCst); }).into_shared();
+                rt.block_on(async {
+                    let (server_io, client_io) = tokio::io::duplex(1024);
+                    let token = ShutdownToken::new();
+                    let (tk, sh) = (token.clone(), shared.clone());
+                    let conn = tokio::spawn(async move { let ws = sh.adopt_upgraded(server_io).await; sh.serve_connection_with_cancel(ws, &tk).await });
+                    let mut client = repe::tokio_tungstenite::WebSocketStream::from_raw_socket(client_io, Role::Client, None).await;
+                    for id in 1..=4u64 {
+                        let m = repe::Message::builder().id(id).query_str("/blob").query_format(repe::QueryFormat::JsonPointer).body_json(&json!({})).unwrap().build();
+                        client.send(WsMessage::Binary(m.to_vec().into())).await.map_err(|e| e.to_string())?;
+                    }
+                    let t0 = std::time::Instant::now();
+                    while served.load(Ordering::SeqCst) < 3 { if t0.elapsed() > Duration::from_secs(5) { return Err("full outbound queue: setup did not park the reader".to_string()); } tokio::time::sleep(Duration::from_millis(10)).await; }
+                    tokio::time::sleep(Duration::from_millis(100)).await;
+                    if disconnects.load(Ordering::SeqCst) != 0 || registry.len() != 1 { return Err("full outbound queue: the connection ended before the cancel".into()); }
+                    token.cancel();
+                    let t1 = std::time::Instant::now();
+                    while disconnects.load(Ordering::SeqCst) == 0 { if t1.elapsed() > Duration::from_secs(5) { return Err("full outbound queue: the embedder cancelled the connection while its reader was parked on the full outbound queue (peer not reading); the connection never ended: disconnect callbacks ran 0 times and the peer is still registered".to_string()); } tokio::time::sleep(Duration::from_millis(10)).await; }
+                    if !registry.is_empty() { return Err("full outbound queue: peer still registered after its disconnect callbacks ran".into()); }
+                    drop(client);
+                    let _ = tokio::time::timeout(Duration::from_secs(5), conn).await;
+                    if disconnects.load(Ordering::SeqCst) != 1 { return Err(format!("full outbound queue: disconnect callbacks ran {} times", disconnects.load(Ordering::SeqCst))); }
+                    Ok(())
+                })
+            });
+            if outcome.is_ok() { done += 1; }
+            rt.shutdown_background();
+            outcome?;
+            Ok(format!("{done} exit causes / phases held (inline handler during cancel, parked off-reader handler when an inline handler panics, cancel with a full outbound queue on an adopted stream, drain deadline with a straggler, graceful drain of three connections, clean close, abrupt drop, text frame, malformed frame, inline handler panic, connect-callback panic, embedder cancel, parked off-reader handler, failed handshake)"))
+        }
         other => panic!("unknown replay entry `{other}`"),
     }
 }
